@@ -13,7 +13,7 @@ def tms_fields(o):
     t = {"SERVICE_AVAILABILITY": "AVAIL", "TMS_ACKNOWLEDGEMENT": "ACK", "SIMPLE_TEXT_MESSAGE": "TEXT"}[o.header.pdu_type.name]
     sn = o.sequence_number
     enc = o.encoding.value if o.encoding is not None else 0
-    f = {"type": t, "ack": bool(o.header.is_acknowledged), "reserved": bool(o.header.is_reserved) or t == "TEXT",
+    f = {"type": t, "ack": bool(o.header.is_acknowledged), "reserved": bool(o.header.is_reserved),
          "address": list(o.address), "cap": o.availability_header.capability.value if (t == "AVAIL" and o.availability_header) else -1,
          "sn": -1 if sn is None else int(sn), "enc": int(enc), "message": list(o.message) if (t == "TEXT" and o.message is not None) else []}
     if t != "TEXT" and t != "ACK":
@@ -49,7 +49,7 @@ def run(ctx):
                 "header flags x length-value fields {0,1,17,255 octets, UTF-8 multi-byte} x events x refresh times 1..127 x failure reasons x "
                 "CSBK trailer; plus the repository's byte samples. distinct = distinct messages.")
     ctx.assumptions += [
-        "field equality modulo the serialisers' documented normalisations: has_more_headers recomputed, reserved bit forced for text messages, ARS second header compared on the field the ack bit selects",
+        "field equality modulo the serialisers' documented normalisation: has_more_headers recomputed; ARS second header compared on the field the ack bit selects",
         "implemented ARS PDU types: device / user registration request, status query, device de-registration, device-or-query response",
     ]
     core.setup_repo_path()
@@ -58,6 +58,7 @@ def run(ctx):
     from okdmr.dmrlib.motorola import text_messaging_service as T
     rng = random.Random(ctx.seed)
     samples = []
+    refused = set()
 
     def observe(kind, build):
         r = {"kind": kind, "f": None, "err": "", "bytes": [], "parsed": None, "bytes2": [], "len": 0}
@@ -79,6 +80,11 @@ def run(ctx):
         except Exception as ex:  # noqa
             r["err"] = type(ex).__name__
             if r["f"] is None:
+                # every message here is built from in-range field values: a constructor that refuses them is a failed round trip
+                key = f"motorola/{kind}/build-refused/{type(ex).__name__}"
+                if key not in refused:
+                    refused.add(key)
+                    ctx.violation(key, f"{key}: a message could not be built from in-range fields: {ex!r}"[:300], {"kind": kind, "n": len(samples), "error": repr(ex)[:200]})
                 return
             r["parsed"] = r["parsed"] or r["f"]
         samples.append(r)
@@ -99,6 +105,9 @@ def run(ctx):
                                                               address=a, sequence_number=sn, encoding=enc, message=txt))
             observe("tms", lambda: T.TextMessagingService(first_header=T.FirstHeader(has_more_headers=bool(rng.getrandbits(1)), pdu_type=T.TMSPDUType.TMS_ACKNOWLEDGEMENT),
                                                           address=rng.choice(addrs), sequence_number=sn))
+            # an acknowledgement that names the encoding of the message it answers (the header chain allows it)
+            observe("tms", lambda: T.TextMessagingService(first_header=T.FirstHeader(has_more_headers=bool(rng.getrandbits(1)), pdu_type=T.TMSPDUType.TMS_ACKNOWLEDGEMENT),
+                                                          address=rng.choice(addrs), sequence_number=sn, encoding=T.TMSEncoding.UCS2_LE))
     for a in addrs:
         for txt in texts:
             observe("tms", lambda: T.TextMessagingService(first_header=T.FirstHeader(has_more_headers=bool(rng.getrandbits(1)), pdu_type=T.TMSPDUType.SIMPLE_TEXT_MESSAGE, is_reserved=bool(rng.getrandbits(1))),
@@ -146,12 +155,14 @@ def run(ctx):
         for refresh in range(1, 128):
             def b():
                 h = A.FirstHeader(has_more_headers=True, is_acknowledged=False, is_control_message=True, pdu_type=P.ARS_DEVICE_OR_QUERY_RESPONSE)
-                return A.AutomaticRegistrationService(first_header=h, response_second_header=A.ResponseSecondHeader(refresh_time=refresh).context(h), is_csbk_ars=csbk)
+                return A.AutomaticRegistrationService(first_header=h, response_second_header=A.ResponseSecondHeader(refresh_time=refresh), is_csbk_ars=csbk)
             observe("ars", b)
-        for reason in A.FailureReason:
+        # the response is built from its fields alone, as a caller would (no repr(), no .context() beforehand); the failure reason is
+        # given as the enum member and as the plain integer the enum wraps (0 is a reason too)
+        for reason in list(A.FailureReason) + [r.value for r in A.FailureReason]:
             def b2():
                 h = A.FirstHeader(has_more_headers=True, is_acknowledged=True, is_control_message=True, pdu_type=P.ARS_DEVICE_OR_QUERY_RESPONSE)
-                return A.AutomaticRegistrationService(first_header=h, response_second_header=A.ResponseSecondHeader(failure_reason=reason).context(h), is_csbk_ars=csbk)
+                return A.AutomaticRegistrationService(first_header=h, response_second_header=A.ResponseSecondHeader(failure_reason=reason), is_csbk_ars=csbk)
             observe("ars", b2)
         for ack in (False, True):
             observe("ars", lambda: A.AutomaticRegistrationService(first_header=A.FirstHeader(has_more_headers=False, is_acknowledged=ack, pdu_type=P.ARS_DEVICE_OR_QUERY_RESPONSE), is_csbk_ars=csbk))
